@@ -126,11 +126,23 @@ open Psec
 
 /-- what a successful version-specific wrap produced, and that the matching unwrap recovers the clear key data -/
 structure WrapOut (bs ml : Nat) (hdr : PyStr) (key : Bytes) (extraPad : Nat) (entropy : Bytes) (s : PyStr)
-    (unwrapF : Bytes → Bytes → R Bytes) : Prop where
+    (unwrapF : Bytes → Bytes → R Bytes) (recoverF : Bytes → Bytes → Bytes) : Prop where
   out : ∃ clear enc mac, clearKeyData key entropy = .ok clear ∧
     entropy.length = (bs - (2 + key.length + extraPad) % bs) + extraPad ∧
     enc.length = clear.length ∧ mac.length = ml ∧ s = hdr ++ toHexU enc ++ toHexU mac ∧
-    unwrapF enc mac = extractKey clear
+    unwrapF enc mac = extractKey clear ∧ recoverF enc mac = clear
+
+/-- the clear key data as a function of the encrypted key data and the MAC (what a holder of the KBPK recovers) -/
+def bRecover (c : Ciphers) (kbpk : Bytes) (enc mac : Bytes) : Bytes :=
+  match bDerive c kbpk with
+  | .ok (kbek, _) => (cbcDecUpdate (c.tdesD kbek) 8 (enc.length / 8) mac enc).1
+  | .error _ => []
+def dRecover (c : Ciphers) (kbpk : Bytes) (enc mac : Bytes) : Bytes :=
+  match dDerive c kbpk with
+  | .ok (kbek, _) => (cbcDecUpdate (c.aesD kbek) 16 (enc.length / 16) mac enc).1
+  | .error _ => []
+def cRecover (c : Ciphers) (kbpk : Bytes) (hdr : PyStr) (enc _mac : Bytes) : Bytes :=
+  (cbcDecUpdate (c.tdesD (cDerive kbpk).1) 8 (enc.length / 8) (((encodeAscii hdr).getD []).take 8) enc).1
 
 theorem clear_len (key entropy clear : Bytes) (h : clearKeyData key entropy = .ok clear) :
     clear.length = 2 + key.length + entropy.length ∧ key.length * 8 < 65536 ∧
@@ -163,7 +175,7 @@ theorem pad_arith (bs k : Nat) (hbs : 0 < bs) : (k + (bs - k % bs)) % bs = 0 ∧
 theorem bWrap_out (c : Ciphers) (hc : c.Lawful) (kbpk : Bytes) (hdr : PyStr) (key : Bytes) (extraPad : Nat)
     (entropy : Bytes) (s : PyStr) (h : bWrap c kbpk hdr key extraPad entropy = .ok s) :
     (kbpk.length = 16 ∨ kbpk.length = 24) ∧
-    WrapOut 8 8 hdr key extraPad entropy s (bUnwrap c kbpk hdr) := by
+    WrapOut 8 8 hdr key extraPad entropy s (bUnwrap c kbpk hdr) (bRecover c kbpk) := by
   unfold bWrap at h
   by_cases hk : kbpk.length = 16 ∨ kbpk.length = 24
   · refine ⟨hk, ⟨?_⟩⟩
@@ -212,7 +224,10 @@ theorem bWrap_out (c : Ciphers) (hc : c.Lawful) (kbpk : Bytes) (hdr : PyStr) (ke
               injection he with he; exact he.symm
             have hel : enc.length = clear.length := by
               rw [henc]; exact cbcEnc_length _ 8 _ _ _ (hc.tdes_ed kbek hkek).enc_len (Props.C19.len_eq_div_mul _ _ hcm.1)
-            refine ⟨clear, enc, mac, rfl, hent', hel, hml, h.symm, ?_⟩
+            have hrec : bRecover c kbpk enc mac = clear := by
+              unfold bRecover; rw [hd]; simp only []
+              rw [hel, henc, cbc_dec_enc _ _ 8 _ mac clear (hc.tdes_ed kbek hkek) (Props.C19.len_eq_div_mul _ _ hcm.1)]
+            refine ⟨clear, enc, mac, rfl, hent', hel, hml, h.symm, ?_, hrec⟩
             unfold bUnwrap
             rw [if_neg (not_not_intro hk)]
             have g2 : ¬ (enc.length < 8 ∨ enc.length % 8 ≠ 0) := by rw [hel]; omega
@@ -227,7 +242,7 @@ theorem bWrap_out (c : Ciphers) (hc : c.Lawful) (kbpk : Bytes) (hdr : PyStr) (ke
 theorem dWrap_out (c : Ciphers) (hc : c.Lawful) (kbpk : Bytes) (hdr : PyStr) (key : Bytes) (extraPad : Nat)
     (entropy : Bytes) (s : PyStr) (h : dWrap c kbpk hdr key extraPad entropy = .ok s) :
     (kbpk.length = 16 ∨ kbpk.length = 24 ∨ kbpk.length = 32) ∧
-    WrapOut 16 16 hdr key extraPad entropy s (dUnwrap c kbpk hdr) := by
+    WrapOut 16 16 hdr key extraPad entropy s (dUnwrap c kbpk hdr) (dRecover c kbpk) := by
   unfold dWrap at h
   by_cases hk : kbpk.length = 16 ∨ kbpk.length = 24 ∨ kbpk.length = 32
   · refine ⟨hk, ⟨?_⟩⟩
@@ -274,7 +289,10 @@ theorem dWrap_out (c : Ciphers) (hc : c.Lawful) (kbpk : Bytes) (hdr : PyStr) (ke
               injection he with he; exact he.symm
             have hel : enc.length = clear.length := by
               rw [henc]; exact cbcEnc_length _ 16 _ _ _ (hc.aes_ed kbek hkek).enc_len (Props.C19.len_eq_div_mul _ _ hcm.1)
-            refine ⟨clear, enc, mac, rfl, hent', hel, hml, h.symm, ?_⟩
+            have hrec : dRecover c kbpk enc mac = clear := by
+              unfold dRecover; rw [hd]; simp only []
+              rw [hel, henc, cbc_dec_enc _ _ 16 _ mac clear (hc.aes_ed kbek hkek) (Props.C19.len_eq_div_mul _ _ hcm.1)]
+            refine ⟨clear, enc, mac, rfl, hent', hel, hml, h.symm, ?_, hrec⟩
             unfold dUnwrap
             rw [if_neg (not_not_intro hk)]
             have g2 : ¬ (enc.length < 16 ∨ enc.length % 16 ≠ 0) := by rw [hel]; omega
@@ -289,7 +307,7 @@ theorem dWrap_out (c : Ciphers) (hc : c.Lawful) (kbpk : Bytes) (hdr : PyStr) (ke
 theorem cWrap_out (c : Ciphers) (hc : c.Lawful) (kbpk : Bytes) (hdr : PyStr) (key : Bytes) (extraPad : Nat)
     (entropy : Bytes) (s : PyStr) (h : cWrap c kbpk hdr key extraPad entropy = .ok s) :
     (kbpk.length = 8 ∨ kbpk.length = 16 ∨ kbpk.length = 24) ∧
-    WrapOut 8 4 hdr key extraPad entropy s (cUnwrap c kbpk hdr) := by
+    WrapOut 8 4 hdr key extraPad entropy s (cUnwrap c kbpk hdr) (cRecover c kbpk hdr) := by
   unfold cWrap at h
   by_cases hk : kbpk.length = 8 ∨ kbpk.length = 16 ∨ kbpk.length = 24
   · refine ⟨hk, ⟨?_⟩⟩
@@ -346,7 +364,10 @@ theorem cWrap_out (c : Ciphers) (hc : c.Lawful) (kbpk : Bytes) (hdr : PyStr) (ke
                 have e4 : ((4 : Nat) : Int) = 4 := rfl
                 rw [e4] at hm2
                 rw [hm2] at hm; injection hm with hm; rw [← hm]; exact hm3
-              refine ⟨clear, enc, mac, rfl, hent', hel, hml, h.symm, ?_⟩
+              have hrec : cRecover c kbpk hdr enc mac = clear := by
+                unfold cRecover; rw [hea]; simp only [Option.getD_some]
+                rw [hel, henc, cbc_dec_enc _ _ 8 _ _ clear (hc.tdes_ed _ hkek) (Props.C19.len_eq_div_mul _ _ hcm.1)]
+              refine ⟨clear, enc, mac, rfl, hent', hel, hml, h.symm, ?_, hrec⟩
               unfold cUnwrap
               rw [if_neg (not_not_intro hk)]
               have g2 : ¬ (enc.length < 8 ∨ enc.length % 8 ≠ 0) := by rw [hel]; omega
